@@ -206,6 +206,12 @@ def gen_tree_family(r, case):
         r.choice(['', '<dtml-var pre1>'])
     case['bad_source'] = False
     case['restricted'] = False
+    # header / footer documents the tag looks up by name in the namespace of
+    # the render: every thread brings its own
+    case['docs'] = core.stream(case['sched_seed'], 'c18docs').random() < 0.3
+    if case['docs']:
+        case['src'] = case['src'].replace('<dtml-tree ', '<dtml-tree '
+                                          'header=hdr footer=ftr ', 1)
 
     def op():
         x = r.random()
@@ -406,6 +412,10 @@ def thread_fn(case, i, t):
                        'RESPONSE': resp, 'pre1': '@%d' % i,
                        'kidsof': lambda idx: list(byidx[idx].kids)}
                 req.update(params)
+                if case.get('docs'):
+                    from DocumentTemplate import HTML
+                    req['hdr'] = HTML('[H@%d]' % i)
+                    req['ftr'] = HTML('[F@%d]' % i)
                 try:
                     outs.append(['val', M.describe(norm(t(None, req))),
                                  sorted(resp.cookies.items())])
